@@ -306,8 +306,55 @@ func pairScenario(n1, n2 int) *engine.Scenario {
 	return sc
 }
 
+// replayPair: two copies of one valid handshake arriving at the same time with the replay history
+// on: one of them is a replay and must get nothing back (whichever the server serves first).
+func replayPair(cipher int) *engine.Scenario {
+	var got [2]int
+	sc := &engine.Scenario{Name: fmt.Sprintf("replay-pair[%d]", cipher), Opt: vrt.Options{Horizon: 10 * time.Minute}}
+	sc.Body = func() {
+		got = [2]int{}
+		vnet.Reset()
+		hk.ResetLogs()
+		key := world.MakeKey("probe-key", world.Ciphers[cipher], "pr0be")
+		w := world.NewTCP([]*world.Key{key}, 10, T)
+		w.Start()
+		tgt := world.StartTarget("93.184.216.34:80", func(t *world.Target, i int, c *vnet.TCPConn) {
+			c.Write([]byte("reply from the target"))
+			t.ReadAll(i, c)
+			c.Close()
+		})
+		wire := world.EncodeStream(key, 77, world.Addr("93.184.216.34:80"), []byte("hello"))
+		var ts []*vrt.Thread
+		for i := 0; i < 2; i++ {
+			i := i
+			ts = append(ts, vrt.Spawn(fmt.Sprintf("client%d", i), func() {
+				cl := world.Dial(fmt.Sprintf("203.0.113.%d:0", 30+i))
+				rd := vrt.Spawn("reader", func() { cl.ReadAll() })
+				cl.Send(wire, 0)
+				vrt.Sleep(time.Second)
+				cl.CloseWrite()
+				vrt.Join(rd)
+				cl.Close()
+				got[i] = len(cl.Got)
+			}))
+		}
+		vrt.Join(ts...)
+		vrt.WaitIdle()
+		w.Stop()
+		tgt.Ln.Close()
+	}
+	sc.Check = func(x *vrt.Exec) (string, bool, []*engine.Finding) {
+		fs := hk.Generic(x, hk.Opts{})
+		if len(fs) == 0 && got[0] > 0 && got[1] > 0 {
+			fs = append(fs, &engine.Finding{Sig: "replay-served", Msg: fmt.Sprintf("two copies of one handshake presented at the same time with the replay history on: both clients received data (%d and %d bytes); the replay must be absorbed silently", got[0], got[1])})
+		}
+		return fmt.Sprint(got[0] > 0, got[1] > 0), true, fs
+	}
+	return sc
+}
+
 func pairScenarios() []*engine.Scenario {
-	return []*engine.Scenario{pairScenario(60, 80), pairScenario(10, 200), pairScenario(0, 51)}
+	return []*engine.Scenario{pairScenario(60, 80), pairScenario(10, 200), pairScenario(0, 51), replayPair(0), replayPair(2)}
 }
 
 func x() *vrt.Exec { return vrt.Cur() }
@@ -376,11 +423,11 @@ func init() {
 			ctx.RunCase("probes", "E", build(s), s, nil)
 		}
 		for _, sc := range pairScenarios() {
-			engine.ExploreS(ctx, sc, engine.SConfig{Bound: 1, Shard: ctx.Shard, NShards: ctx.NShards, Deadline: ctx.Deadline})
+			engine.ExploreS(ctx, sc, engine.SConfig{Bound: 2, Shard: ctx.Shard, NShards: ctx.NShards, Deadline: ctx.Deadline})
 		}
 	})
 	hk.Replayers["C06"] = func(ctx *engine.Ctx, rp engine.Replay) []*engine.Finding {
-		if strings.HasPrefix(rp.Unit, "probe-pair") {
+		if strings.HasPrefix(rp.Unit, "probe-pair") || strings.HasPrefix(rp.Unit, "replay-pair") {
 			return engine.ReplayScenario(pairScenarios(), rp)
 		}
 		var s Spec
